@@ -50,20 +50,24 @@ def build_spec(total, pts):
     return Spec(d, MARKERS)
 
 
-def _pos(st, num, placements, m):
+def _pos(mach, st, num, placements, m):
     """does the number equal the position of marker m (placements: marker -> offset BEHIND the frontier; negative = ahead)?"""
     off = dict(placements).get(m)
-    if off is None or off in (99, -99):
+    if off is None or off in (99, -99) or num[0] != 'n':
         return False
-    if num[0] != 'n':
+    try:
+        return mach.offset(st, num) == -off
+    except strscan.Unsupported:
         return False
-    if num[1] == 'rel':
-        return num[2] == -off
-    if num[1] == 'abs' and st[1] <= strscan.CAP:
-        return num[2] == st[1] - off
-    if num[1] == 'len' and st[2][1] is not None and st[2][0] == st[2][1]:
-        return st[2][0] + num[2] == -off
-    return False
+
+
+def _eq(mach, st, num, k):
+    """is the number the plain position k (from the start of the text)?"""
+    try:
+        r = mach.sign(st, num, strscan.N('abs', k))
+    except strscan.Unsupported:
+        return False
+    return len(r) == 1 and r[0][0] == 0
 
 
 def _each_completion(mach, st):
@@ -93,9 +97,9 @@ def claim_parse(mach, rv, st):
             out.append(('claim', 'unexpected result structure'))
             continue
         mte, b64, ds = d[3]
-        if not _pos(st, mte, pl, 'M'):
+        if not _pos(mach, st, mte, pl, 'M'):
             out.append(('offset', f'media_type_end is not the end of the media type (marker M {"not yet passed" if "M" not in passed else "elsewhere"})'))
-        if not _pos(st, ds, pl, 'D'):
+        if not _pos(mach, st, ds, pl, 'D'):
             out.append(('offset', f'data_start is not the start of the data (marker D {"not yet passed" if "D" not in passed else "elsewhere"})'))
         if b64[0] != 'n' or b64[1] != 'abs' or bool(b64[2]) != ('B' in allm):
             out.append(('flag', f'base_64 = {b64[2] if b64[0] == "n" else "?"} but ";base64" is {"present" if "B" in allm else "absent"}'))
@@ -109,7 +113,7 @@ def claim_media_type(mach, rv, st):
         if 'M' not in passed:
             out.append(('offset', 'returns before the end of the media type is reached'))
             continue
-        m_abs_is_5 = (st[1] <= strscan.CAP and st[1] - off['M'] == 5)
+        m_abs_is_5 = (isinstance(st[1], int) and st[1] - off['M'] == 5)
         if rv[0] == 'adt' and rv[1] == 'Option' and rv[2] == 0:
             if not m_abs_is_5:
                 out.append(('value', 'returns None although the media type is not empty'))
@@ -120,7 +124,7 @@ def claim_media_type(mach, rv, st):
         s = rv[3][0]
         if m_abs_is_5:
             out.append(('value', 'returns Some("") for an empty media type'))
-        if s[1] != strscan.N('abs', 5) or not _pos(st, s[2], pl, 'M'):
+        if not _eq(mach, st, s[1], 5) or not _pos(mach, st, s[2], pl, 'M'):
             out.append(('offset', 'the returned slice is not the text between "data:" and the end of the media type'))
     return out[:3]
 
@@ -140,7 +144,7 @@ def claim_data(mach, rv, st):
     for q, pl, passed, fut in _each_completion(mach, st):
         if rv[0] != 'str':
             out.append(('claim', f'returns {str(rv)[:60]}'))
-        elif 'D' not in passed or not _pos(st, rv[1], pl, 'D') or rv[2] != strscan.N('len', 0):
+        elif 'D' not in passed or not _pos(mach, st, rv[1], pl, 'D') or rv[2] != strscan.N('len', 0):
             out.append(('offset', 'the returned slice is not the text after the "," that ends the header'))
     return out[:3]
 
@@ -165,7 +169,7 @@ def claim_parts(mach, rv, st):
             continue
         mt, b64, data = d[3]
         off = dict(pl)
-        m_is_5 = 'M' in off and st[1] <= strscan.CAP and st[1] - off['M'] == 5
+        m_is_5 = 'M' in off and isinstance(st[1], int) and st[1] - off['M'] == 5
         if mt[0] == 'adt' and mt[2] == 0:
             if not m_is_5:
                 out.append(('value', 'media_type is None although the media type is not empty'))
@@ -173,13 +177,13 @@ def claim_parts(mach, rv, st):
             sl = mt[3][0]
             if m_is_5:
                 out.append(('value', 'media_type is Some("") for an empty media type'))
-            if sl[1] != strscan.N('abs', 5) or not _pos(st, sl[2], pl, 'M'):
+            if not _eq(mach, st, sl[1], 5) or not _pos(mach, st, sl[2], pl, 'M'):
                 out.append(('offset', 'media_type is not the text between "data:" and the end of the media type'))
         else:
             out.append(('claim', 'unexpected media_type'))
         if b64[0] != 'n' or b64[1] != 'abs' or bool(b64[2]) != ('B' in allm):
             out.append(('flag', 'base_64 does not say whether ";base64" is present'))
-        if data[0] != 'str' or not _pos(st, data[1], pl, 'D') or data[2] != strscan.N('len', 0):
+        if data[0] != 'str' or not _pos(mach, st, data[1], pl, 'D') or data[2] != strscan.N('len', 0):
             out.append(('offset', 'data is not the text after the "," that ends the header'))
     return out[:3]
 
